@@ -75,7 +75,9 @@ Record cfg := mkcfg {
   keep_tmp : bool;
   cleanup : list fname;      (* removal order of the clean-up (glob order is unspecified: taken from the trace) *)
   fix_close : bool;          (* outputs are closed before their lock is created (fixes/C07_close_before_lock.diff) *)
-  fix_proc : bool            (* _processed locks are dropped before the first merge (fixes/C07_drop_processed_locks...) *)
+  fix_proc : bool;           (* _processed locks are dropped before the first merge (fixes/C07_drop_processed_locks...) *)
+  reuse : bool               (* --read_assignments <saves of an earlier --keep_tmp run>: no read collection, no clean-up; the save,
+                                multimapper and info files (and the stage-2 statistics and locks) live next to the SUPPLIED prefix *)
 }.
 
 (* ================================================================== (1) UNIT LEVEL *)
@@ -383,25 +385,34 @@ Definition program (cf:cfg) : list stmt :=
   [IfAll [RGLock] []
      (ds ([RemoveIfExists RGLock] ++ map (fun r => OpenW (RGPart r)) (rg_parts cf) ++ map (fun r => Put (RGPart r)) (rg_parts cf) ++
           map (fun r => Close (RGPart r)) (rg_parts cf) ++ [Touch RGLock]))] ++
-  [IfAll [SaveLock] [] (flat_map (stage1 cf) (chrs cf) ++ ds (resolve_ops cf))] ++
+  (if reuse cf then [] else [IfAll [SaveLock] [] (flat_map (stage1 cf) (chrs cf) ++ ds (resolve_ops cf))]) ++
   [Do (Require Info)] ++
   ds (creation_ops Final (creation cf)) ++
   flat_map (stage2 cf) (chrs cf) ++
   ds ((if fix_proc cf then map (fun c => RemoveIfExists (Processed c)) (chrs cf) else []) ++
       flat_map (merge_ops cf) (merges cf) ++
       map Close (opened Final (creation cf)) ++
-      (if keep_tmp cf then [] else map RemoveIfExists (cleanup cf))).
+      (if keep_tmp cf || reuse cf then [] else map RemoveIfExists (cleanup cf))).
 
 (* ------------------------------------------------------------------ clean run, crash, resume, verdict *)
 Definition init (res:bool) (s:fsys) (b:option nat) (sa:bool) : xs := mkxs s [] false Running b sa res [].
-Definition clean_run (cf:cfg) : xs := run (program cf) (init false [] None false).
+(* what a run starts from: nothing - or, with --read_assignments, the files an earlier --keep_tmp run of the same code left
+   next to its save prefix (its read-group files live in its own sample directory and are not part of the saves) *)
+Definition producer (cf:cfg) : cfg :=
+  mkcfg (setup cf) (rg_parts cf) (rg_file cf) (chrs cf) (merge_order cf) (creation cf) (dumps cf) (merges cf) (has_models cf) true []
+        (fix_close cf) (fix_proc cf) false.
+Definition init_fs (cf:cfg) : fsys :=
+  if reuse cf
+  then filter (fun e => match owner (fst e) with Some TRG | None => false | Some _ => true end) (fs (run (program (producer cf)) (init false [] None false)))
+  else [].
+Definition clean_run (cf:cfg) : xs := run (program cf) (init false (init_fs cf) None false).
 (* the mutation trace of the clean run, in order *)
 Definition ticks (cf:cfg) : list (N * fname * list fname) := rev (tlog (clean_run cf)).
 Definition n_mutations (cf:cfg) : nat := length (tlog (clean_run cf)).
 
 (* kill -9 before (after = false) or right after (after = true) the k-th mutation (k >= 1): buffers are lost *)
 Definition crash_run (cf:cfg) (k:nat) (after:bool) : xs :=
-  run (program cf) (init false [] (Some (if after then k else pred k)) after).
+  run (program cf) (init false (init_fs cf) (Some (if after then k else pred k)) after).
 Definition crash_fs (x:xs) : fsys :=
   fold_left (fun s h => match snd h, get s (fst h) with
                         | _ :: _, Some v => upd s (fst h) (mkf (fcontent v) true)
@@ -445,10 +456,10 @@ Fixpoint first_diff (a b:list (N * fname * list fname)) (i:nat) : nat :=
 (* the clean-up list must be exactly the auxiliary files that exist when the clean-up starts *)
 Definition with_keep (cf:cfg) : cfg :=
   mkcfg (setup cf) (rg_parts cf) (rg_file cf) (chrs cf) (merge_order cf) (creation cf) (dumps cf) (merges cf) (has_models cf) true (cleanup cf)
-        (fix_close cf) (fix_proc cf).
+        (fix_close cf) (fix_proc cf) (reuse cf).
 Definition aux_left (cf:cfg) : list fname :=
   map fst (filter (fun e => match owner (fst e) with Some _ => true | None => false end) (fs (clean_run (with_keep cf)))).
-Definition cleanup_ok (cf:cfg) : bool := keep_tmp cf || bag_eqb (cleanup cf) (aux_left cf).
+Definition cleanup_ok (cf:cfg) : bool := keep_tmp cf || reuse cf || bag_eqb (cleanup cf) (aux_left cf).
 (* locks first: no data file is removed while a lock is still to be removed *)
 Fixpoint locks_first (l:list fname) : bool :=
   match l with [] => true | f::t => (is_lock f || negb (existsb is_lock t)) && locks_first t end.
